@@ -17108,7 +17108,18 @@ func (msg *BGPMessage) Serialize(options ...*MarshallingOption) ([]byte, error) 
 		if BGP_HEADER_LENGTH+len(b) > maxLen {
 			return nil, NewMessageError(0, 0, nil, fmt.Sprintf("too long message length %d", BGP_HEADER_LENGTH+len(b)))
 		}
-		msg.Header.Len = BGP_HEADER_LENGTH + uint16(len(b))
+	}
+	// The length field always describes the octets emitted here. A message that
+	// comes from ParseBGPMessage carries the length it was received with, and its
+	// body need not serialise to the same number of octets (the parser ignores
+	// octets after the body of OPEN and KEEPALIVE, and accepts MP_REACH_NLRI next
+	// hop encodings that are written back in the canonical, longer or shorter,
+	// form): keeping the received length emitted a mis-framed message.
+	if BGP_HEADER_LENGTH+len(b) > BGP_MAX_EXTENDED_MESSAGE_LENGTH {
+		return nil, NewMessageError(0, 0, nil, fmt.Sprintf("too long message length %d", BGP_HEADER_LENGTH+len(b)))
+	}
+	if l := BGP_HEADER_LENGTH + uint16(len(b)); msg.Header.Len != l {
+		msg.Header.Len = l
 	}
 	h, err := msg.Header.Serialize(options...)
 	if err != nil {
